@@ -18,7 +18,27 @@ THEOREMS = [
     (M, "C15.order_step", "one step of that fold spelled out: unanchored older-only keys first, then each key followed by the older-only keys anchored at it"),
     (M, "C15.newest_order_kept", "the newest version's keys keep their relative order in the merge"),
     (M, "C15.merge_single", "merging one version returns its text (given a lossless parse, no key twice)"),
-    (M, "C15.merge_identical", "merging n+1 identical junk-free versions returns the text"),
+    (M, "C15.merge_identical", "merging n+1 identical junk-free versions returns the text (no hypothesis on neighbouring white-space any more)"),
+    (M, "C15.walk_no_adjacent_whitespace", "Parser.walk of every regex format never yields two neighbouring Whitespace entries (the white-space "
+        "expressions are greedy one-character repeats): the former NoAdjWs hypothesis is a theorem about the parser models"),
+    (M, "C15.merge_single_total", "for EVERY text of a regex format (DTD: no byte-order mark) the walk terminates with entries the merge accepts, and "
+        "merge_channels(name, [s]) == s unless an entity key occurs twice — no hypothesis about the walk left (C01 totality/losslessness composed in)"),
+    (M, "C15.merge_identical_total", "the same for n+1 identical junk-free versions"),
+    (M, "C15.equal_keys_collapse", "entries with equal keys collapse to the newest: a key carried by entries of several versions (e.g. the sticky "
+        "DocumentWrapper of an Android root attribute, keyed by the attribute NAME) is in the merge exactly once, with the text of the newest version having it"),
+    (M, "C15.merge_single_dup", "a single version WITH a repeated key: merge_channels returns the serialised OrderedDict — each key once at the place of its "
+        "first occurrence with the text of its LAST occurrence (closed form, any text of any regex format)"),
+    (M, "C15.version_dict_closed_form", "closed form of parse_resource for ANY entry list: keys = first occurrences in file order, value = last entry with the key"),
+    (M, "C15.diff_never_sees_duplicates", "at every step of reduce(merge_two) both key lists handed to AddRemove are duplicate-free, so the diff is the closed form "
+        "AR.spec: the misplacement AddRemove shows for repeated right-only keys cannot occur inside merge_channels"),
+    (M, "C15.comment_copies", "the duplicate-comment counter: the merge holds an n-th copy of a stand-alone comment text iff some version has at least n "
+        "copies (number of copies = maximum over the versions); attached comments travel with their string (newest_text)"),
+    (M, "C15.merged_strict_shape", "when every version's dict alternates strictly entry / white-space, so does the merge (prune never leaves two neighbouring "
+        "white-space entries; the merge starts with a non-white-space entry when every version does)"),
+    (M, "C15.merge_reparses_dtd_partial", "RE-PARSE (DTD, every version printed `<!ENTITY k \"v\">` per safe record, distinct keys): the merged text is itself such a "
+        "printed file and DTDParser.walk parses it without junk into the union of keys, each once, newest record"),
+    (M, "C15.merge_reparses_inc_partial", "RE-PARSE (.inc, every version printed `#define k v` per safe record, distinct keys): the same with DefinesParser.walk "
+        "(no blank line or leading newline — which would be Junk — can arise)"),
     (M, "C15.merge_identical_entries", "the same at entry level, for any parser (Fluent, Android)"),
     (M, "C15.unsupported_refused", "a file name no parser pattern matches is refused with MergeNotSupportedError"),
     (M, "C15.refused_iff_unsupported", "MergeNotSupportedError is the answer exactly when no parser pattern matches the name"),
@@ -29,16 +49,18 @@ THEOREMS = [
         "section name): IniParser.walk parses the merged text without junk into the section and entities with exactly the union of keys, each once, newest record"),
 ]
 PARTIAL = [
-    "the re-parse (the merged text re-parses without junk into the expected entities) is a THEOREM only for .properties and .ini on the class of printed "
-    "safe records (merge_reparses_properties_partial: every version is `key=value\\n` per record, safe keys/values, distinct keys per version; "
-    "merge_reparses_ini_partial: the same under one `[section]` header shared by all versions, no key equal to the section name; no "
-    "comments, blank lines, escapes; entity ORDER of the re-parse not stated there, it is the dict order of order_spec); for all other layouts and "
-    "formats it is checked by the oracle with the real parsers on every generated case (no junk, keys exactly once, texts, order)",
-    "Fluent and Android are covered at entry level only (merge.ents: entries taken from the real parsers); their parsers are external",
-    "merge_identical assumes that no two neighbouring entries of a parse are both Whitespace (NoAdjWs): true for the real parsers "
-    "because whitespace is matched greedily, not proved for the parser models; counted on every generated version (contract, expected 0)",
-    "merge_single / merge_identical take the losslessness of the walk (C01) and the absence of a repeated key as hypotheses; "
-    "the repeated-key point is probed on the real code (probe.dupkey.*): the input is NOT returned there",
+    "the re-parse (the merged text re-parses without junk into the expected entities) is a THEOREM for .properties, .ini, DTD and .inc on the class of printed "
+    "safe records (merge_reparses_{properties,ini,dtd,inc}_partial: one record per line, safe keys/values, distinct keys per version; ini: one `[section]` header "
+    "shared by all versions; no comments, blank lines, escapes; entity ORDER of the re-parse not stated there, it is the dict order of order_spec); not for PO "
+    "(C02 has the round trip of a single PO record only) and not for layouts with comments / blank lines: there it is checked by the oracle with the real parsers "
+    "on every generated case (no junk, keys exactly once, texts, order)",
+    "Fluent and Android are covered at entry level only (merge.ents: entries taken from the real parsers, WITH their keys: for Android the sticky DocumentWrapper "
+    "entries must be keyed '<?xml?><resources>' / attribute name / '>' / '</resources>' — input contract, checked on every generated Android version); "
+    "their parsers are external; well-formedness of the merged XML and the root attributes are judged by the oracle (expat)",
+    "merge_single / merge_identical need 'no entity key twice in the version' (NodupKeys): forced, see merge_single_dup for what is returned otherwise "
+    "(each key once, first position, last text) — the two clauses 'every key once' and 'a single version is returned' contradict each other on such a "
+    "file, so it is outside the property's domain; probed on the real code (probe.dupkey.*) and tied by the dupkey correspondence stream",
+    "a DTD that starts with a byte-order mark is excluded from merge_single_total (the DTD walk drops the mark; witness in Props/C15.lean)",
 ]
 LEVEL_TEXT = ("Lean 4 theorems over an executable transliteration of merge_channels/merge_resources/merge_two/prune/getParser: for ALL "
               "lists of versions the merged dict has every non-whitespace key of every version exactly once, with the entry of the newest "
@@ -46,9 +68,9 @@ LEVEL_TEXT = ("Lean 4 theorems over an executable transliteration of merge_chann
               "unknown file types are refused.  The model is tied to the Python by differential runs at text level (five regex formats) "
               "and at entry level (all seven formats), and an independent oracle re-parses every merged output with the real parsers")
 LEVEL_NOTE = ("trusted: Lean kernel; hand-written model of merge.py (tied by the merge.texts / merge.ents / merge.channels correspondence); "
-              "parser models of C01; object identity of Whitespace/Junk modelled as (version, index); the re-parse claim is checked, not proved; "
-              "merge_single/merge_identical take losslessness of the walk (C01) and absence of adjacent whitespace entries as hypotheses "
-              "(the latter monitored on every generated input)")
+              "parser models of C01; object identity of Whitespace/Junk modelled as (version, index); the re-parse claim is a theorem for printed "
+              "properties/ini/dtd/inc files and checked with the real parsers elsewhere; termination/losslessness of the walk (C01) and the absence of "
+              "neighbouring white-space entries are theorems about the parser models, no longer hypotheses")
 TECHNIQUE = "Lean 4 proof over executable model (reusing the C20 closed form) + differential correspondence + re-parse oracle"
 TRUSTED = [
     "hand-written model CLModel/Merge/Channels.lean of merge.py and parser.getParser (tied by the merge.* correspondence)",
@@ -242,12 +264,97 @@ class Android(F):
         return '<string name="%s">%s</string>' % (k, v)
 
 
-FORMATS = [Props(), Dtd(), Ini(), Inc(), IncF(), Po(), Ftl(), Android()]
+class AndroidRoot(Android):
+    """strings.xml whose document wrapper varies between versions: xmlns declarations and attributes of the
+    `<resources>` root that are absent / identical / different / in another order, with or without XML declaration,
+    indented strings, comments and blank lines between them.  The root is the structural item
+    ("S", 0, attrs, header style, blank) with attrs = ((attribute index, value index), ...)."""
+    head = ""
+    scale = 0.3                 # share of the per-format case budget (the other Android stream stays as it is)
+    IND = "  "
+    ATTRS = [("xmlns:tools", ["http://schemas.android.com/tools"]),
+             ("tools:ignore", ["MissingTranslation", "MissingTranslation,UnusedResources", "UnusedResources"]),
+             ("tools:locale", ["en", "en-US"]),
+             ("xmlns:xliff", ["urn:oasis:names:tc:xliff:document:1.2"]),
+             ("xmlns:moz", ["http://mozac.org/tools", "http://mozac.org/tools/v2"]),
+             ("locale", ["en", "de"])]
+    HEADERS = ['<?xml version="1.0" encoding="utf-8"?>\n', '<?xml version="1.0" encoding="UTF-8" standalone="no"?>\n', ""]
+    XLIFF = '<xliff:g id="x">%1$s</xliff:g> y'
+    values = Android.values + [XLIFF]
+
+    def root_attrs(self, items):
+        """[(name, value)] of the root as rendered: the declared attributes in their order, plus the namespace
+        declarations the version needs (a `tools:` attribute, an `<xliff:g>` in a value) when it does not declare them"""
+        decl = []
+        for it in items:
+            if it[0] == "S":
+                decl = [(self.ATTRS[a][0], self.ATTRS[a][1][v % len(self.ATTRS[a][1])]) for a, v in it[2]]
+        names = [n for n, _ in decl]
+        if any(n.startswith("tools:") for n in names) and "xmlns:tools" not in names:
+            decl.append(("xmlns:tools", self.ATTRS[0][1][0]))
+        if "xmlns:xliff" not in names and any(
+                it[0] == "E" and self.values[it[2] % len(self.values)] == self.XLIFF for it in items):
+            decl.append(("xmlns:xliff", self.ATTRS[3][1][0]))
+        return decl
+
+    def render(self, items, lead_blank=False):
+        hs, rb = 0, False
+        for it in items:
+            if it[0] == "S":
+                hs, rb = it[3] or 0, it[4]
+        out = [self.HEADERS[hs], "<resources", "".join(' %s="%s"' % a for a in self.root_attrs(items)), ">\n", self.blank(rb)]
+        for it in items:
+            if it[0] == "E":
+                if it[3] is not None:
+                    out.append(self.IND + self.comment(self.acomments[it[3]]))
+                out.append(self.IND + self.entity(self.keys[it[1]], self.values[it[2] % len(self.values)]) + "\n")
+                out.append(self.blank(it[4]))
+            elif it[0] == "C":
+                out.append(self.IND + self.standalone(self.scomments[it[1]]))
+        out.append(self.tail)
+        return "".join(out)
+
+    def rand_root(self, rng):
+        k = rng.choice([0, 1, 2, 2, 3, 4])
+        idx = rng.sample(range(len(self.ATTRS)), k)
+        return tuple((a, rng.randrange(6)) for a in idx)
+
+    def edit_root(self, rng, items):
+        """one edit of the root between channels: re-value / drop / add / reorder an attribute, change the header"""
+        items = list(items)
+        i = [j for j, it in enumerate(items) if it[0] == "S"][0]
+        it = items[i]
+        attrs = list(it[2])
+        hs = it[3] or 0
+        kind = rng.choice(["same", "revalue", "revalue", "drop", "add", "reorder", "header"])
+        if kind == "revalue" and attrs:
+            j = rng.randrange(len(attrs))
+            attrs[j] = (attrs[j][0], attrs[j][1] + 1 + rng.randrange(2))
+        elif kind == "drop" and attrs:
+            del attrs[rng.randrange(len(attrs))]
+        elif kind == "add":
+            free = [a for a in range(len(self.ATTRS)) if a not in {x[0] for x in attrs}]
+            if free:
+                attrs.insert(rng.randrange(len(attrs) + 1), (rng.choice(free), rng.randrange(6)))
+        elif kind == "reorder" and len(attrs) > 1:
+            rng.shuffle(attrs)
+        elif kind == "header":
+            hs = rng.randrange(len(self.HEADERS))
+        items[i] = (it[0], it[1], tuple(attrs), hs, it[4])
+        return items
+
+
+FORMATS = [Props(), Dtd(), Ini(), Inc(), IncF(), Po(), Ftl(), Android(), AndroidRoot()]
 TEXT_FMTS = {"properties", "dtd", "ini", "inc", "po"}
 UNSUPPORTED = ["foo.unknown", "a.txt", "README", "a.properties.orig", "strings.xml.bak", "a.json", "a.dtdx", "po", "a.ftl~",
                "a.inc.in", "", "a.PROPERTIES", "xproperties", "a.pot.x", "a.html", "a.js", "strings.xm"]
+# a supported name followed by another suffix (backup / reject / template files): the parser patterns are anchored with `$`
+_SFX = [".properties", ".dtd", ".ini", ".inc", ".po", ".pot", ".ftl", "strings.xml"]
+_TAILS = [".orig", ".rej", ".bak", "~", ".in", ".x", "x", ".swp", "-old", " ", ".properties.txt"]
+UNSUPPORTED += ["dir/" + ("a" if sfx.startswith(".") else "") + sfx + tail for sfx in _SFX for tail in _TAILS]
 # the canonical name of every format the property quantifies over
-SUPPORTED = ["a.properties", "x/y.dtd", "a.ini", "defines.inc", "a.po", "a.ftl", "strings.xml", "res/values/strings.xml"]
+SUPPORTED = ["a.properties", "x/y.dtd", "a.ini", "defines.inc", "a.po", "a.ftl", "strings.xml", "res/values/strings.xml",
+             "a.orig.properties", "a.properties.dtd", "dir.ini/b.inc", "x.po.ftl", "a.dtd.bak/strings.xml", "a.txt.po"]
 OTHER_NAMES = ["a.pot", "a.properties\n", "mystrings-x.xml", "a.inc", "stringsxml", "x.strings.foo.xml", "a.dtd/", ".po"]
 
 
@@ -262,6 +369,8 @@ def base_version(f, rng, nrec):
         items.append(("S", 0, None, None, rng.random() < 0.3))
     if isinstance(f, IncF):
         items.append(("S", 0, None, None, rng.random() < 0.5))
+    if isinstance(f, AndroidRoot):
+        items.append(("S", 0, f.rand_root(rng), rng.choice([0, 0, 0, 1, 2]), rng.random() < 0.2))
     ks = rng.sample(range(len(f.keys)), min(nrec, len(f.keys)))
     for k in ks:
         items.append(("E", k, rng.randrange(40), rng.randrange(len(f.acomments)) if rng.random() < 0.3 else None,
@@ -428,7 +537,47 @@ def oracle(f, versions, texts, r):
                 return "single/identical versions: result is not parse-identical to the input"
         elif v["text"] != texts[0]:
             return "single/identical versions: result is not the input"
+    if isinstance(f, AndroidRoot):
+        return root_oracle(f, versions, texts, v)
     return None
+
+
+def root_oracle(f, versions, texts, v):
+    """the document wrapper of a merged strings.xml (independent of the model and of the parser under test: expat):
+    well-formed XML with root `resources`; every root attribute / namespace declaration of every version exactly once,
+    with the value of the newest version that has it; single / identical versions keep their attribute list as it is"""
+    x = v.get("xml") or {"wellformed": False, "err": "not examined"}
+    if not x["wellformed"]:
+        return "merged text is not well-formed XML (%s)" % x.get("err")
+    if x["root"] != "resources":
+        return "merged document has root element %r" % x["root"]
+    exp = {}
+    for items in versions:
+        for n, val in f.root_attrs(items):
+            exp.setdefault(n, val)
+    names = [a[0] for a in x["attrs"]]
+    if sorted(names) != sorted(exp):
+        return "root attributes not exactly once: missing %s duplicated %s foreign %s" % (
+            sorted(set(exp) - set(names)), sorted({n for n in names if names.count(n) > 1}), sorted(set(names) - set(exp)))
+    for n, val in x["attrs"]:
+        if exp[n] != val:
+            return "root attribute %s does not carry the value of the newest version having it (%r, expected %r)" % (n, val, exp[n])
+    # (the ORDER of attributes is not significant in XML and not judged: minidom lists namespace declarations differently)
+    return None
+
+
+def wrapper_contract(f, items, desc):
+    """input contract of the entry-level model (merge.ents) for Android: the sticky DocumentWrapper entries of a version
+    are keyed '<?xml?><resources>', then the ATTRIBUTE NAME of every root attribute (in minidom's order), '>', and at the
+    end '</resources>'; the text of an attribute wrapper is ` name="value"`"""
+    w = [e for e in desc if e[0] == "?"]
+    attrs = f.root_attrs(items)
+    n = len(attrs)
+    if len(w) != n + 3 or [w[0][1], w[n + 1][1], w[n + 2][1]] != [repr("<?xml?><resources>"), repr(">"), repr("</resources>")]:
+        return False
+    if desc[0] is not w[0] or desc[-1] is not w[-1] or desc[:n + 2] != w[:n + 2]:
+        return False
+    return sorted((e[1], e[3]) for e in w[1:n + 1]) == sorted((repr(a[0]), ' %s="%s"' % a) for a in attrs)
 
 
 def classify(v):
@@ -449,23 +598,31 @@ def gen_cases(ctx, f):
             items.insert(0, ("S", 0, None, None, False))
         if isinstance(f, IncF):
             items = [("S", 0, None, None, False)] + items + [("S", 1, None, None, False)]
+        if isinstance(f, AndroidRoot):
+            # the same attribute with another value per version, another attribute order, one version without a root attribute
+            roots = [((0, 0), (1, 0)), ((1, 1), (0, 0), (2, 0)), ((5, 1), (1, 2), (0, 0)), ()]
+            items.insert(0, ("S", 0, roots[(salt + len(seq)) % 4 if salt else 0], 0, False))
         return items
+    scale = getattr(f, "scale", 1)
     for a in sub:
         cases.append([mk(a, 0)])
         for b in sub:
             cases.append([mk(a, 0), mk(b, 1)])
     triples = [(a, b, c) for a in sub for b in sub for c in sub]
-    for a, b, c in (triples if ctx.tier != "quick" else rng.sample(triples, 250)):
+    for a, b, c in (triples if ctx.tier != "quick" and scale == 1 else rng.sample(triples, int(ctx.n(250, 3375) * scale))):
         cases.append([mk(a, 0), mk(b, 1), mk(c, 2)])
     exhaustive = len(cases)
     # histories: chains of edits over the common pool, one to four versions
-    for _ in range(ctx.n(700, 12000)):
+    for _ in range(int(ctx.n(700, 12000) * scale)):
         n = rng.choice([1, 2, 2, 3, 3, 4])
         v = base_version(f, rng, rng.randrange(1, 6))
         chain = [v]
         for _ in range(n - 1):
             for _ in range(rng.randrange(0, 4)):
                 v = edit(f, rng, v)
+            if isinstance(f, AndroidRoot):
+                for _ in range(rng.randrange(0, 3)):
+                    v = f.edit_root(rng, v)
             chain.append(v)
         if rng.random() < 0.5:
             chain.reverse()
@@ -473,9 +630,23 @@ def gen_cases(ctx, f):
             rng.shuffle(chain)
         cases.append(chain)
     # identical versions
-    for _ in range(ctx.n(60, 600)):
+    for _ in range(int(ctx.n(60, 600) * scale)):
         v = base_version(f, rng, rng.randrange(1, 6))
         cases.append([v] * rng.randrange(2, 5))
+    # directed (no random choice): neighbouring white-space of different length on both sides of an older-only entry,
+    # so that `prune` meets a longer run AFTER a shorter one (the replacing branch) as well as the other way round
+    def E(k, salt, blank, com=None):
+        return ("E", k, salt + 7 * k, com, blank)
+
+    def W(items):
+        w = mk((), 0)
+        at = 1 if w and w[0][0] == "S" and w[0][1] == 0 else 0
+        return w[:at] + items + w[at:]
+    for b_new, b_old in [(3, 0), (1, 3), (3, 1), (2, 3), (0, 3)]:
+        cases.append([W([E(0, 0, b_new), E(1, 0, 0)]), W([E(0, 1, 0), E(2, 1, b_old), E(1, 1, 0)])])
+        cases.append([W([E(0, 0, b_new), E(1, 0, 1)]), W([E(0, 1, b_old), E(2, 1, b_old), E(1, 1, 0), E(3, 1, b_new)]),
+                      W([E(3, 2, 0), E(4, 2, b_new), E(0, 2, b_old), E(5, 2, b_old)])])
+        cases.append([W([E(0, 0, b_new, 1), E(1, 0, 0)]), W([E(0, 1, 0), E(2, 1, b_old, 0), E(1, 1, 0)])])
     return cases, exhaustive
 
 
@@ -498,6 +669,96 @@ def junk_variants(rng, f, texts):
     return texts
 
 
+def run_format(ctx, f):
+    """correspondence + oracle for one format; returns (Outcome, versions with adjacent white-space, wrapper contract breaches)"""
+    out = Outcome()
+    total_adj = 0
+    bad_wrappers = 0
+    tag = type(f).__name__
+    rng = ctx.rng("c15.run", tag)
+    cases, exhaustive = gen_cases(ctx, f)
+    rendered = []
+    for vs in cases:
+        lead = rng.random() < 0.15
+        rendered.append([f.render(v, lead_blank=lead and f.lead_blank_ok) for v in vs])
+    out.count("%s.cases" % tag, len(cases))
+    out.count("%s.exhaustive" % tag, exhaustive)
+    res = pool.pmap("impl.channels", "impl_merge", [[f.fmt, f.name, ts] for ts in rendered], timeout=5.0)
+    # correspondence lines
+    tlines, elines = [], []
+    for ts, r in zip(rendered, res):
+        tlines.append("merge.texts %s %s" % (f.fmt, " ".join(C.enc(t) for t in ts)) if f.fmt in TEXT_FMTS else None)
+        elines.append(r["r"].get("ents") if "r" in r else None)
+    tmodel = drive(ctx, tlines)
+    emodel = drive(ctx, elines)
+    for vs, ts, r, tm, em in zip(cases, rendered, res, tmodel, emodel):
+        out.evaluations += 1
+        in_domain = True
+        if "r" in r and "versions" in r["r"]:
+            for items, d in zip(vs, r["r"]["versions"]):
+                if adjacent_ws(d):
+                    total_adj += 1
+                if not version_ok(f, items, d):
+                    in_domain = False
+                elif isinstance(f, AndroidRoot) and not wrapper_contract(f, items, d):
+                    bad_wrappers += 1
+        if not in_domain:
+            out.count("%s.skipped_not_junk_free" % tag)
+            bad = None
+        else:
+            bad = oracle(f, vs, ts, r)
+        canon = r["r"]["canon"] if "r" in r else "exc " + str(r.get("exc"))
+        if bad:
+            out.violations.append({"what": "%s: %s" % (tag, bad), "input": {"fmt": tag, "texts": ts, "versions": vs},
+                                   "output": r.get("r", {}).get("text"), "finding": None})
+            out.count("%s.violations" % tag)
+            continue
+        if tm is not None and tm != canon:
+            out.disagreements.append({"op": "merge.texts", "fmt": tag, "texts": ts, "impl": canon, "model": tm})
+        elif em is not None and em != canon:
+            out.disagreements.append({"op": "merge.ents", "fmt": tag, "texts": ts, "impl": canon, "model": em})
+        if in_domain and len(vs) >= 2 and "r" in r:
+            newest = {it[1] for it in vs[0] if it[0] == "E"}
+            older = {it[1] for v in vs[1:] for it in v if it[0] == "E"}
+            vals = {}
+            reval = False
+            for v in vs:
+                for it in v:
+                    if it[0] == "E":
+                        if it[1] in vals and vals[it[1]] != it[2] % len(f.values):
+                            reval = True
+                        vals.setdefault(it[1], it[2] % len(f.values))
+            if (older - newest) or reval:
+                out.nontrivial.add((tag, r["r"]["text"]))
+                out.count("%s.nontrivial" % tag)
+                if (len(out.samples) < 16 and len(vs) >= 3 and out.distribution.get("sampled." + tag, 0) < 2
+                        and any(it[0] == "C" or it[3] is not None for v in vs for it in v)):
+                    out.count("sampled." + tag)
+                    out.samples.append({"fmt": tag, "versions": ts, "merged": r["r"]["text"]})
+    # outside the domain: correspondence only
+    rj = ctx.rng("c15.junk", tag)
+    jt = [junk_variants(rj, f, ts) for ts in rj.sample(rendered, min(len(rendered), ctx.n(250, 4000)))]
+    jres = pool.pmap("impl.channels", "impl_merge", [[f.fmt, f.name, ts, True, False] for ts in jt], timeout=5.0)
+    jl = ["merge.texts %s %s" % (f.fmt, " ".join(C.enc(t) for t in ts)) if f.fmt in TEXT_FMTS else None for ts in jt]
+    jm = drive(ctx, jl)
+    je = drive(ctx, [r["r"].get("ents") if "r" in r else None for r in jres])
+    for ts, r, tm, em in zip(jt, jres, jm, je):
+        out.evaluations += 1
+        out.count("%s.out_of_domain" % tag)
+        if r.get("exc") == "Hang":
+            canon = "err Hang"
+        elif "r" in r:
+            canon = r["r"]["canon"]
+        else:
+            out.count("%s.out_of_domain_exc_%s" % (tag, r.get("exc")))
+            continue
+        if tm is not None and tm != canon:
+            out.disagreements.append({"op": "merge.texts", "fmt": tag, "texts": ts, "impl": canon, "model": tm, "domain": "outside"})
+        elif em is not None and em != canon and canon != "err Hang":
+            out.disagreements.append({"op": "merge.ents", "fmt": tag, "texts": ts, "impl": canon, "model": em, "domain": "outside"})
+    return out, total_adj, bad_wrappers
+
+
 def run(ctx):
     out = Outcome()
     out.rule = ("per format (properties, dtd, ini, inc plain and inside #filter emptyLines, po, ftl, android strings.xml): all single "
@@ -508,87 +769,22 @@ def run(ctx):
                 "non-trivial = at least two versions and the merge contains a key the newest version lacks or a re-valued key; "
                 "distinct = distinct (format, merged text)")
     total_adj = 0
-    for f in FORMATS:
-        tag = type(f).__name__
-        rng = ctx.rng("c15.run", tag)
-        cases, exhaustive = gen_cases(ctx, f)
-        rendered = []
-        for vs in cases:
-            lead = rng.random() < 0.15
-            rendered.append([f.render(v, lead_blank=lead and f.lead_blank_ok) for v in vs])
-        out.count("%s.cases" % tag, len(cases))
-        out.count("%s.exhaustive" % tag, exhaustive)
-        res = pool.pmap("impl.channels", "impl_merge", [[f.fmt, f.name, ts] for ts in rendered], timeout=5.0)
-        # correspondence lines
-        tlines, elines = [], []
-        for ts, r in zip(rendered, res):
-            tlines.append("merge.texts %s %s" % (f.fmt, " ".join(C.enc(t) for t in ts)) if f.fmt in TEXT_FMTS else None)
-            elines.append(r["r"].get("ents") if "r" in r else None)
-        tmodel = drive(ctx, tlines)
-        emodel = drive(ctx, elines)
-        for vs, ts, r, tm, em in zip(cases, rendered, res, tmodel, emodel):
-            out.evaluations += 1
-            in_domain = True
-            if "r" in r and "versions" in r["r"]:
-                for items, d in zip(vs, r["r"]["versions"]):
-                    if adjacent_ws(d):
-                        total_adj += 1
-                    if not version_ok(f, items, d):
-                        in_domain = False
-            if not in_domain:
-                out.count("%s.skipped_not_junk_free" % tag)
-                bad = None
-            else:
-                bad = oracle(f, vs, ts, r)
-            canon = r["r"]["canon"] if "r" in r else "exc " + str(r.get("exc"))
-            if bad:
-                out.violations.append({"what": "%s: %s" % (tag, bad), "input": {"fmt": tag, "texts": ts, "versions": vs},
-                                       "output": r.get("r", {}).get("text"), "finding": None})
-                out.count("%s.violations" % tag)
-                continue
-            if tm is not None and tm != canon:
-                out.disagreements.append({"op": "merge.texts", "fmt": tag, "texts": ts, "impl": canon, "model": tm})
-            elif em is not None and em != canon:
-                out.disagreements.append({"op": "merge.ents", "fmt": tag, "texts": ts, "impl": canon, "model": em})
-            if in_domain and len(vs) >= 2 and "r" in r:
-                newest = {it[1] for it in vs[0] if it[0] == "E"}
-                older = {it[1] for v in vs[1:] for it in v if it[0] == "E"}
-                vals = {}
-                reval = False
-                for v in vs:
-                    for it in v:
-                        if it[0] == "E":
-                            if it[1] in vals and vals[it[1]] != it[2] % len(f.values):
-                                reval = True
-                            vals.setdefault(it[1], it[2] % len(f.values))
-                if (older - newest) or reval:
-                    out.nontrivial.add((tag, r["r"]["text"]))
-                    out.count("%s.nontrivial" % tag)
-                    if (len(out.samples) < 16 and len(vs) >= 3 and out.distribution.get("sampled." + tag, 0) < 2
-                            and any(it[0] == "C" or it[3] is not None for v in vs for it in v)):
-                        out.count("sampled." + tag)
-                        out.samples.append({"fmt": tag, "versions": ts, "merged": r["r"]["text"]})
-        # outside the domain: correspondence only
-        rj = ctx.rng("c15.junk", tag)
-        jt = [junk_variants(rj, f, ts) for ts in rj.sample(rendered, min(len(rendered), ctx.n(250, 4000)))]
-        jres = pool.pmap("impl.channels", "impl_merge", [[f.fmt, f.name, ts, True, False] for ts in jt], timeout=5.0)
-        jl = ["merge.texts %s %s" % (f.fmt, " ".join(C.enc(t) for t in ts)) if f.fmt in TEXT_FMTS else None for ts in jt]
-        jm = drive(ctx, jl)
-        je = drive(ctx, [r["r"].get("ents") if "r" in r else None for r in jres])
-        for ts, r, tm, em in zip(jt, jres, jm, je):
-            out.evaluations += 1
-            out.count("%s.out_of_domain" % tag)
-            if r.get("exc") == "Hang":
-                canon = "err Hang"
-            elif "r" in r:
-                canon = r["r"]["canon"]
-            else:
-                out.count("%s.out_of_domain_exc_%s" % (tag, r.get("exc")))
-                continue
-            if tm is not None and tm != canon:
-                out.disagreements.append({"op": "merge.texts", "fmt": tag, "texts": ts, "impl": canon, "model": tm, "domain": "outside"})
-            elif em is not None and em != canon and canon != "err Hang":
-                out.disagreements.append({"op": "merge.ents", "fmt": tag, "texts": ts, "impl": canon, "model": em, "domain": "outside"})
+    bad_wrappers = 0
+    # the formats are independent of each other: three at a time (results are merged in the order of FORMATS)
+    from concurrent.futures import ThreadPoolExecutor
+    with ThreadPoolExecutor(3) as ex:
+        parts = list(ex.map(lambda f: run_format(ctx, f), FORMATS))
+        dups = list(ex.map(lambda f: run_dupkeys(ctx, f), FORMATS))
+    for o in dups:
+        out.merge(o)
+    for o, a, b in parts:
+        for smp in o.samples:
+            if len(out.samples) < 16:
+                out.samples.append(smp)
+        o.samples = []
+        out.merge(o)
+        total_adj += a
+        bad_wrappers += b
     # parser selection / refusal
     rs = ctx.rng("c15.select")
     names = list(UNSUPPORTED) + list(SUPPORTED) + list(OTHER_NAMES)
@@ -626,15 +822,162 @@ def run(ctx):
         ("junk.identical.dtd", "a.dtd", ['<!ENTITY a "1">\n??\n', '<!ENTITY a "1">\n??\n']),
         ("inisection.keyclash", "a.ini", ["[a]\na=1\n"]),
         ("inisection.other", "a.ini", ["[S]\na=1\n", "[O]\na=0\nb=2\n"]),
+        # the C20 second-order effect (left=[0,1], right=[5,0,5,6]) as files: the older version repeats k5
+        ("dupkey.older_repeats", "a.properties", ["k0=0\nk1=1\n", "k5=5\nk0=o\nk5=55\nk6=6\n"]),
+        # Android document wrapper, points outside the generated domain (candidate findings, see NOTES-C15 round 4)
+        ("android.rootattr.entity", "strings.xml", ['<?xml version="1.0" encoding="utf-8"?>\n<resources note="a &amp; b">\n<string name="a">A</string>\n</resources>\n']),
+        ("android.rootattr.quote", "strings.xml", ['<?xml version="1.0" encoding="utf-8"?>\n<resources note=\'say "hi"\'>\n<string name="a">A</string>\n</resources>\n']),
+        ("android.rootattr.keyclash", "strings.xml", ['<?xml version="1.0" encoding="utf-8"?>\n<resources foo="x">\n<string name="foo">A</string>\n</resources>\n']),
     ]
     pres = pool.pmap("impl.channels", "impl_probe", [[n, ts] for _, n, ts in probes], timeout=5.0)
     for (tag, n, ts), r in zip(probes, pres):
         same = "r" in r and r["r"] == ts[0]
         out.count("probe.%s.%s" % (tag, "input_returned" if same else "input_changed"))
         out.notes.append("probe %s: merge_channels(%r, %r) -> %r" % (tag, n, ts, r.get("r", r.get("exc"))))
+        if tag == "dupkey.older_repeats" and r.get("r") != "k5=55\nk0=0\nk6=6\nk1=1\n":
+            out.disagreements.append({"op": "probe.dupkey.older_repeats", "impl": r.get("r", r.get("exc")),
+                                      "model": "k5=55\nk0=0\nk6=6\nk1=1\n (diff_never_sees_duplicates: k6 after k0)"})
+        if tag.startswith("android.rootattr") and not same:
+            out.notes.append("CANDIDATE FINDING (outside the generated domain, not judged): %s — a junk-free single version is not "
+                             "returned parse-identically, the result is not well-formed XML" % tag)
     out.contracts["versions_with_adjacent_whitespace_entries"] = total_adj
+    out.contracts["android_versions_whose_wrapper_keys_are_not_the_attribute_names"] = bad_wrappers
+    if bad_wrappers:
+        out.notes.append("input contract of merge.ents: %d Android versions have DocumentWrapper entries that are not keyed "
+                         "by '<?xml?><resources>' / attribute name / '>' / '</resources>'" % bad_wrappers)
     if total_adj:
-        out.notes.append("hypothesis NoAdjWs of merge_identical does not hold for %d generated versions" % total_adj)
+        out.notes.append("the real parsers yielded neighbouring Whitespace entries in %d generated versions (the parser models provably "
+                         "never do: walk_no_adjacent_whitespace; for Fluent/Android it is the NoAdjWs hypothesis of merge_identical_entries)" % total_adj)
+    return out
+
+
+def inject_dup(rng, f, items):
+    """repeat one string of the version at another place, with another value (and possibly another comment)"""
+    items = list(items)
+    lo, hi = first_free(f, items), last_free(f, items)
+    ents = [i for i in range(lo, hi) if items[i][0] == "E"]
+    if not ents:
+        return items
+    it = items[rng.choice(ents)]
+    new = ("E", it[1], it[2] + 1 + rng.randrange(5), rng.choice([None, None, it[3], 0]), rblank(rng))
+    items.insert(rng.randrange(lo, hi + 1), new)
+    return items
+
+
+def dedup_items(items):
+    """what `OrderedDict(pairs)` keeps of a version with repeated strings: the first POSITION of every key"""
+    seen, out = set(), []
+    for it in items:
+        if it[0] == "E":
+            if it[1] in seen:
+                continue
+            seen.add(it[1])
+        out.append(it)
+    return out
+
+
+def run_dupkeys(ctx, f):
+    """versions WITH a repeated key (outside the property's domain: 'every key once' and 'a single version is returned'
+    contradict each other there).  Correspondence of the model on such inputs, and the closed forms the theorems state
+    (merge_single_dup / version_dict_closed_form / diff_never_sees_duplicates / order_spec) compared with the real code:
+      * single version: output == the entry texts with every repeated key kept once, at its FIRST position, with the text of
+        its LAST occurrence;
+      * several versions (junk-free re-parse): every key once; it carries the own text of the LAST occurrence in the newest
+        version having it; entity order = the usual reference order computed on the de-duplicated versions (first positions)
+        — in particular an older-only entry still lands after the neighbour it followed when an OLDER version repeats a key
+        (the AddRemove misplacement for repeated right-only keys does not come through).
+    A mismatch is reported as a disagreement (the theorems are about the model), never as a violation."""
+    out = Outcome()
+    tag = type(f).__name__
+    rng = ctx.rng("c15.dup", tag)
+    cases = []
+    for _ in range(ctx.n(45, 500)):
+        n = rng.choice([1, 1, 2, 2, 3])
+        v = base_version(f, rng, rng.randrange(1, 6))
+        chain = [v]
+        for _ in range(n - 1):
+            for _ in range(rng.randrange(0, 3)):
+                v = edit(f, rng, v)
+            chain.append(v)
+        if rng.random() < 0.5:
+            chain.reverse()
+        k = rng.randrange(len(chain))
+        for j in ({k} | ({rng.randrange(len(chain))} if rng.random() < 0.4 else set())):
+            for _ in range(rng.choice([1, 1, 2])):
+                chain[j] = inject_dup(rng, f, chain[j])
+        cases.append(chain)
+    # directed: the C20 example `left=[0,1]`, `right=[5,0,5,6]` as files (newest 0 1, older 5 0 5 6)
+    def E(k, salt):
+        return ("E", k, salt, None, False)
+    wrap = lambda items: (lambda w: w[:1] + items + w[1:] if w and w[0][0] == "S" and w[0][1] == 0 else items + w)(
+        [("S", 0, None, None, False)] if isinstance(f, Ini) else
+        [("S", 0, None, None, False), ("S", 1, None, None, False)] if isinstance(f, IncF) else
+        [("S", 0, (), 0, False)] if isinstance(f, AndroidRoot) else [])
+    cases.append([wrap([E(0, 0), E(1, 0)]), wrap([E(5, 1), E(0, 1), E(5, 2), E(2, 1)])])
+    cases.append([wrap([E(0, 0), E(1, 0)]), wrap([E(5, 1), E(0, 1), E(5, 2), E(2, 1)]), wrap([E(3, 1), E(0, 1), E(3, 2), E(4, 1), E(1, 3)])])
+    rendered = [[f.render(v) for v in vs] for vs in cases]
+    res = pool.pmap("impl.channels", "impl_merge", [[f.fmt, f.name, ts] for ts in rendered], timeout=5.0)
+    tm = drive(ctx, ["merge.texts %s %s" % (f.fmt, " ".join(C.enc(t) for t in ts)) if f.fmt in TEXT_FMTS else None for ts in rendered])
+    em = drive(ctx, [r["r"].get("ents") if "r" in r else None for r in res])
+    for vs, ts, r, t, e in zip(cases, rendered, res, tm, em):
+        out.evaluations += 1
+        out.count("%s.dupkey" % tag)
+        if "r" not in r or "versions" not in r["r"]:
+            out.count("%s.dupkey_exc_%s" % (tag, r.get("exc")))
+            continue
+        v = r["r"]
+        canon = v["canon"]
+        if t is not None and t != canon:
+            out.disagreements.append({"op": "merge.texts", "fmt": tag, "texts": ts, "impl": canon, "model": t, "domain": "dupkey"})
+            continue
+        if e is not None and e != canon:
+            out.disagreements.append({"op": "merge.ents", "fmt": tag, "texts": ts, "impl": canon, "model": e, "domain": "dupkey"})
+            continue
+        if any(x[0] == "J" for d in v["versions"] for x in d) or not all(version_ok(f, it, d) for it, d in zip(vs, v["versions"])):
+            out.count("%s.dupkey_input_not_as_intended" % tag)
+            continue
+        what = None
+        if len(vs) == 1:
+            d = v["versions"][0]
+            last = {}
+            for x in d:
+                if x[0] in "ESI?":
+                    last[x[1]] = x[3]
+            seen, parts = set(), []
+            for x in d:
+                if x[0] in "ESI?":
+                    if x[1] in seen:
+                        continue
+                    seen.add(x[1])
+                    parts.append(last[x[1]])
+                else:
+                    parts.append(x[3])
+            if f.fmt != "android" and "".join(parts) != v["text"]:
+                what = "single version with a repeated key: not (first position, last text)"
+            out.nontrivial.add(("dup1", tag, v["text"]))
+        if what is None and not any(x[0] == "J" for x in v["reparse"]):
+            keys = [x[1] for x in v["reparse"] if x[0] == "E"]
+            newest = {}
+            for d in v["versions"]:
+                mine = {}
+                for x in d:
+                    if x[0] == "E":
+                        mine[x[1]] = x[2]
+                for k2, t2 in mine.items():
+                    newest.setdefault(k2, t2)
+            order = [f.key_repr(r2[1]) for r2 in ref_order([dedup_items(it) for it in vs]) if r2[0] == "E"]
+            if sorted(keys) != sorted(newest):
+                what = "repeated keys: a key is not exactly once in the merge"
+            elif any(x[0] == "E" and x[2] != newest[x[1]] for x in v["reparse"]):
+                what = "repeated keys: a key does not carry the LAST text of the newest version having it"
+            elif keys != order:
+                what = "repeated keys: entry order differs from the reference order of the de-duplicated versions"
+            if len(vs) > 1:
+                out.nontrivial.add(("dupN", tag, v["text"]))
+        elif what is None:
+            out.count("%s.dupkey_reparse_has_junk" % tag)
+        if what:
+            out.disagreements.append({"op": "dupkey.closedform", "fmt": tag, "texts": ts, "impl": canon, "what": what})
     return out
 
 
